@@ -86,14 +86,23 @@ class Batch:
     def __init__(self, ctx, stream):
         self.ctx, self.stream = ctx, stream
         self.items = []
+        self.regime = []
 
-    def add(self, what, case, impl_jop, model_req, oracle_req=None, canonical=True):
+    def add(self, what, case, impl_jop, model_req, oracle_req=None, canonical=True, regime_req=None):
         self.items.append((what, case, impl_jop, model_req, oracle_req, canonical))
+        if regime_req is not None:
+            self.regime.append(regime_req)
 
     def flush(self):
         st = self.stream
         its = self.items
         self.items = []
+        if self.regime:
+            # the decidable hypothesis of the operator-level theorems (jw_exact, jw_majorana_exact),
+            # evaluated by the Model on this very input
+            for ok in self.ctx.driver.run(self.regime):
+                st.count('theorem-hypothesis exact-regime: %s' % ('holds' if ok else 'fails (tolerance deletion)'))
+            self.regime = []
         if not its:
             return
         answers = self.ctx.driver.run([it[3] for it in its])
@@ -199,7 +208,8 @@ def stream_fermion(ctx):
         jQ = enc_op('qubit', Q.terms)
         n = max(modes_of(jA), modes_of(jQ))
         b.add('jordan_wigner(FermionOperator)', case, jQ, {'op': 'c04.fermion', 'A': jA},
-              oracle('fermion', n, ['op', jA], jQ) if n <= 8 else None)
+              oracle('fermion', n, ['op', jA], jQ) if n <= 8 else None,
+              regime_req={'op': 'c04.fermion_ok', 'A': jA})
         # corollaries of exactness, on the implementation's own values (exact comparison of canonical sums)
         if prev is not None and modes_of(jA) <= 6 and len(A.terms) * len(prev[0].terms) <= 12:
             B, QB = prev
@@ -231,7 +241,7 @@ def stream_fermion(ctx):
         jQ = enc_op('qubit', Q.terms)
         n = max((modes_of(jA) + 1) // 2, modes_of(jQ))
         b.add('jordan_wigner(MajoranaOperator)', case, jQ, {'op': 'c04.majorana', 'A': jA},
-              oracle('majorana', n, ['op', jA], jQ))
+              oracle('majorana', n, ['op', jA], jQ), regime_req={'op': 'c04.majorana_ok', 'A': jA})
     b.flush()
     return st
 
